@@ -365,6 +365,7 @@ func (p *Prog) flatten() {
 	(or did, before it was folded in) become values. */
 	for _, f := range tops {
 		if !isHelper(f) && nil == f.Parent() {
+			ssa.Relift(f)
 			ssa.CaptureByValue(f)
 			ssa.LiftCells(f)
 		}
